@@ -156,6 +156,32 @@ Theorem C06_fragment_roundtrip_cbcs :
 Proof. exact fragment_roundtrip_cbcs. Qed.
 Print Assumptions C06_fragment_roundtrip_cbcs.
 
+(* the two fragment theorems for EncryptFragment with SencBox.AddSample in its REPAIRED text (the code as it is now):
+   same statements; they are no longer vacuous on fragments mixing samples with and without protection ranges
+   (ex_frag_roundtrip_mixed: the pinned model panics there, the repaired one round-trips) *)
+Theorem C06_fragment_roundtrip_repaired_cenc :
+  forall (E D : list N -> list N -> list N) (protfunc : list N -> res (list ssp))
+         key iv cb sb start mdat_hdr ids f e constiv,
+  clean_moof (cf_children f) = true -> nr_trafs (cf_children f) = 1%nat ->
+  encrypt_frag_r E D protfunc Cenc key iv cb sb start mdat_hdr ids f = Ok e ->
+  decrypt_frag E D Cenc key constiv cb sb e = Ok (layout start (cf_children f) mdat_hdr, cf_samples f).
+Proof. exact fragment_roundtrip_r_cenc. Qed.
+Print Assumptions C06_fragment_roundtrip_repaired_cenc.
+
+Theorem C06_fragment_roundtrip_repaired_cbcs :
+  forall (E D : list N -> list N -> list N) (protfunc : list N -> res (list ssp))
+         key iv cb sb start mdat_hdr ids f e,
+  (forall k b, length (E k b) = 16%nat) ->
+  (forall k b, length (D k b) = 16%nat) ->
+  (forall k b, length b = 16%nat -> D k (E k b) = b) ->
+  key_ok key = true ->
+  (forall s ssps, In s (cf_samples f) -> protfunc s = Ok ssps -> fits s ssps) ->
+  clean_moof (cf_children f) = true -> nr_trafs (cf_children f) = 1%nat ->
+  encrypt_frag_r E D protfunc Cbcs key iv cb sb start mdat_hdr ids f = Ok e ->
+  decrypt_frag E D Cbcs key (pad_iv iv) cb sb e = Ok (layout start (cf_children f) mdat_hdr, cf_samples f).
+Proof. exact fragment_roundtrip_r_cbcs. Qed.
+Print Assumptions C06_fragment_roundtrip_repaired_cbcs.
+
 (* third-party cenc content: a successful DecryptFragment keeps the sample count and every sample size, and
    shifts the offsets by exactly the removed bytes (cbcs sizes: explored on the repository's cbcs files) *)
 Theorem C06_decrypt_preserves_timing :
@@ -623,3 +649,17 @@ Example ex_mixed_repaired :
   exists s box, senc_of_r senc_empty encs = Ok s /\ sn_ss s = [[]; [mkSsp 5 16]] /\ senc_encode s = Ok box /\
                 senc_parse 16 box = Ok s /\ lenN box = 16 + (16 + 2) + (16 + 2 + 6).
 Proof. split; [reflexivity|]. split; [reflexivity|]. exact mixed_subsamples_repaired. Qed.
+
+(* a fragment mixing a sample without protection range (a single empty NAL unit) with a normal one: the pinned
+   EncryptFragment model panics, the repaired one succeeds and the round trip restores both samples *)
+Example ex_frag_roundtrip_mixed :
+  let f := mkC [MTraf [mkT TOther 16 2; mkT TOther 20 3; mkT TTrun 60 4]]
+               [[0; 0; 0; 0]; C07Spec.frames [101 :: repeat 7 139]] in
+  let pf := protect_ranges avc_is_video (fun _ => Err) Cenc in
+  encrypt_frag ex_E ex_E pf Cenc (repeat 3 16) (repeat 255 8) 0 0 500 8 100 f = Panic /\
+  match encrypt_frag_r ex_E ex_E pf Cenc (repeat 3 16) (repeat 255 8) 0 0 500 8 100 f with
+  | Ok e => decrypt_frag ex_E ex_E Cenc (repeat 3 16) [] 0 0 e = Ok (layout 500 (cf_children f) 8, cf_samples f)
+            /\ ef_subs e = [[]; [mkSsp 96 48]]
+  | _ => False
+  end.
+Proof. vm_compute. repeat split; reflexivity. Qed.
